@@ -98,7 +98,7 @@ def run(tier, seed, replay=None):
     R.proof_coverage(vlib.proof_step(prop))
     if replay:
         c = json.load(open(replay))["case"]
-        raw = [{k: c[k] for k in ("target", "src", "entry", "pairs") if k in c}]
+        raw = [{k: c[k] for k in ("target", "src", "entry", "pairs", "group_all") if k in c}]
     else:
         raw = gen_cases(R.rng, tier)
     out = recvprop.recv_part(
